@@ -33,6 +33,11 @@ def register(PROPS, HARNESS_PKGS):
         "trace": {"module": "ProviderTrace", "cfg": "Provider_trace.cfg"},
         "nontrivial": lambda s: len(set(s["types"].values())) > 1 or len(s["H"]) < len(s["types"]) or bool(s.get("refuse")),
     }
+    # a deployment's own profile that does not declare OpenAI compatibility (see verifCustomProfiles)
+    custom = dict(part)
+    custom.update({"name": "custom", "mc": [], "env": {"VERIF_CUSTOM_PROFILES": "1"},
+                   "quick": {"gen": [_pg('{"e1", "e2"}', '{"openai", "openai-compatible", "verifnoc", "ollama"}', '{"verifnoc", "ollama", "openai-compatible"}')]},
+                   "thorough": {"gen": [_pg('{"e1", "e2", "e3"}', '{"openai", "openai-compatible", "verifnoc", "ollama", "vllm"}', '{"verifnoc", "verifoff", "ollama", "openai-compatible", "auto"}')], "sample": 2000}})
     PROPS["C11"] = {
         "rule": "TLC enumerates provider prefix (every prefix the shipped profiles declare) x endpoint-type mix x healthy "
                 "subset; each boots the assembled server with typed scripted backends, posts a chat request under "
@@ -40,5 +45,5 @@ def register(PROPS, HARNESS_PKGS):
                 "config/profiles/*.yaml at run time. Non-trivial = mixed types or an unhealthy endpoint.",
         "exhaustive": True,
         "assumptions": ["allowed-type table computed by the harness from the shipped YAML (routing.prefixes, api.openai_compatible)"],
-        "parts": [part],
+        "parts": [part, custom],
     }
